@@ -713,9 +713,15 @@ class TopLevelVisitor(ast.NodeVisitor):
             linex = node.lineno - 1
             pattern = r'\s*(async\s+)?def\s*' + node.name
             # I think this is actually robust
-            while not re.match(pattern, self.sourcelines[linex]):
+            nlines = len(self.sourcelines)
+            while linex < nlines and not re.match(pattern, self.sourcelines[linex]):
                 linex += 1
-            lineno = linex + 1
+            if linex < nlines:
+                lineno = linex + 1
+            else:
+                # The name is not spelled in the source as in the ast (an
+                # identifier that is not in NFKC form): trust the ast.
+                lineno = node.lineno
         else:
             lineno = node.lineno
         return lineno
